@@ -38,3 +38,53 @@ pub fn dummy_env_with(lock_time: elements::LockTime, sequence: elements::Sequenc
         elements::BlockHash::GENESIS_PREVIOUS_BLOCK_HASH,
     )
 }
+
+/// The k-th of 200 asset ids with pseudo-random bytes (so that the C side's radix sort of the
+/// fee outputs recurses over several byte positions).
+pub fn fee_asset(k: usize) -> [u8; 32] {
+    let mut x = 0x9e37_79b9_7f4a_7c15u64 ^ (k as u64 + 1).wrapping_mul(0x2545_F491_4F6C_DD1D);
+    let mut out = [0u8; 32];
+    for b in out.iter_mut() {
+        x ^= x << 13;
+        x ^= x >> 7;
+        x ^= x << 17;
+        *b = (x >> 32) as u8;
+    }
+    out
+}
+
+/// An environment with `n_out` fee outputs (empty script, explicit asset and value) over 20
+/// assets; `tag` goes into the lock time and the values so that two environments with different
+/// tags differ in everything a jet can read.
+pub fn fee_env(tag: u32, n_out: usize) -> ElementsTxEnv {
+    let output: Vec<elements::TxOut> = (0..n_out)
+        .map(|i| elements::TxOut {
+            asset: confidential::Asset::Explicit(elements::AssetId::from_byte_array(fee_asset((i * 7 + tag as usize) % 200))),
+            value: confidential::Value::Explicit(1000 + i as u64 + 100_000 * tag as u64),
+            nonce: confidential::Nonce::Null,
+            script_pubkey: elements::Script::new(),
+            witness: elements::TxOutWitness::default(),
+        })
+        .collect();
+    ElementsEnv::new(
+        Arc::new(elements::Transaction {
+            version: 2,
+            lock_time: elements::LockTime::from_consensus(tag),
+            input: vec![elements::TxIn {
+                previous_output: elements::OutPoint::default(),
+                is_pegin: false,
+                script_sig: elements::Script::new(),
+                sequence: elements::Sequence::MAX,
+                asset_issuance: AssetIssuance::default(),
+                witness: elements::TxInWitness::default(),
+            }],
+            output,
+        }),
+        vec![ElementsUtxo { script_pubkey: elements::Script::new(), asset: confidential::Asset::Null, value: confidential::Value::Null }],
+        0,
+        Cmr::from_byte_array([tag as u8; 32]),
+        ControlBlock::from_slice(&CTRL_BLK).expect("control block"),
+        None,
+        elements::BlockHash::GENESIS_PREVIOUS_BLOCK_HASH,
+    )
+}
